@@ -3,17 +3,21 @@
 // features.go, negotiator.go, starttls.go, session.go, conn.go.
 //
 // Every case runs the real NewSession with the default negotiator and the real
-// xmpp.StartTLS, xmpp.SASL and xmpp.BindResource features against a scripted
-// peer on an in-memory socket pair.  The peer answers the client's stream
-// header and STARTTLS request from the case's script, then runs a real
-// tls.Server (throw-away certificate generated at start) that records the
-// ClientHello's server name, and continues with the script's TLS-layer part
-// (answering SASL PLAIN and resource binding itself).  Each script is run with
-// the stream tee off / TeeIn / TeeOut / both.  Observed: every byte the peer
-// received before the first TLS record, the Parse/Negotiate callbacks with the
-// session state they saw, server names, handshake results, the outcome and the
-// final state.  The oracle restates C02 on these; coq/Neg/Model.v must
-// reproduce them (coq/C02/Model.v c2_ok).
+// xmpp.StartTLS, xmpp.SASL and xmpp.BindResource features (plus scripted extra
+// features that need a secured stream) against a scripted peer on an in-memory
+// socket pair.  The peer answers the client's stream header and STARTTLS
+// request from the case's clear-text script; what is left of that script when
+// it says <proceed/> is pipelined behind it in the same write (or, in mode
+// "plaintext", sent in a later segment, where the TLS client expects a record).
+// It then runs a real tls.Server (throw-away certificate generated at start)
+// that records the ClientHello's server name, and continues with the script's
+// TLS-layer part (answering SASL PLAIN and resource binding itself).  Each
+// script is run with the stream tee off / TeeIn / TeeOut / both, and optionally
+// again for other domains with the same StartTLS feature value.  Observed: every
+// byte the peer received before the first TLS record, the Parse/Negotiate
+// callbacks with the session state they saw, server names, handshake results,
+// the outcome and the final state.  The oracle restates C02 on these;
+// coq/C02/Model.v must reproduce them (c2_ok).
 package main
 
 import (
@@ -38,30 +42,42 @@ import (
 	"mellium.im/sasl"
 	"mellium.im/xmpp"
 	"mellium.im/xmpp/jid"
+	nx "verifharness/c02/negx"
 	"verifharness/hx"
 )
 
-const imports = "From XV Require Import lib.Bytes gen.NegTables Neg.Model C02.Model.\n"
+const imports = "From XV Require Import lib.Bytes gen.NegTables C02.Model.\n"
+
+// watchdog for one NewSession call; generous, the machine is shared
+const watchdog = 30 * time.Second
 
 // HsMode: ok (client trusts the certificate), untrusted (explicit config
 // without our root), nilcfg (StartTLS(nil): default config, our root unknown),
 // abort (server refuses the ClientHello), plaintext (clear text follows
 // <proceed/> in a later segment).
 type c2Case struct {
-	hx.NegCase
-	HsMode string `json:"hs_mode"`
-	Feat   string `json:"feat"` // which features are configured, in order: t=starttls s=sasl b=bind x=extra voluntary X=extra required
-	Note   string `json:"note,omitempty"`
+	Note    string       `json:"note,omitempty"`
+	Feat    string       `json:"feat"` // configured features, in order: t=starttls s=sasl b=bind x=scripted extra feature e=marker feature
+	HsMode  string       `json:"hs_mode"`
+	TLSName *string      `json:"tls_name,omitempty"` // ServerName of the config given to StartTLS; absent = StartTLS(nil)
+	Domain  string       `json:"domain"`
+	Bits    uint8        `json:"bits"`
+	Tee     int          `json:"tee"` // bit 0: TeeIn, bit 1: TeeOut
+	In      []nx.Item    `json:"in"`
+	TLSIn   []nx.Item    `json:"tls_in,omitempty"`
+	XOuts   []nx.Outcome `json:"x_outs,omitempty"` // what the extra feature's Negotiate returns, call by call
 	// Reuse: further sessions that use the same StartTLS feature value (other domains)
 	Reuse []string `json:"reuse,omitempty"`
 }
+
+func (c *c2Case) hsOK() bool { return c.HsMode == "ok" }
 
 type observed struct {
 	Class   string       `json:"class"` // ok, err, panic, timeout
 	Bits    uint8        `json:"bits"`
 	Clear   string       `json:"clear"` // bytes received by the peer before any TLS record
-	Wire    []hx.REvent  `json:"wire"`
-	CB      []hx.REvent  `json:"callbacks"`
+	Wire    []nx.WItem   `json:"wire"`
+	CB      []nx.CB      `json:"callbacks"`
 	SNI     []string     `json:"sni"`
 	HS      []bool       `json:"hs"`
 	TLSUp   bool         `json:"tls_up"`   // the session reports a completed handshake
@@ -71,7 +87,7 @@ type observed struct {
 	Unexp   string       `json:"unexpected,omitempty"`
 	ErrText string       `json:"err,omitempty"`
 	Choices []string     `json:"-"`
-	Outs    []hx.Outcome `json:"-"`
+	Outs    []nx.Outcome `json:"-"`
 }
 
 // ---------------------------------------------------------------- certificate
@@ -113,7 +129,7 @@ func makeCert() {
 // ---------------------------------------------------------------- the scripted peer
 
 type peer struct {
-	conn      *hx.DuplexEnd
+	conn      *nx.DuplexEnd
 	c         *c2Case
 	domain    string
 	mu        sync.Mutex
@@ -125,7 +141,7 @@ type peer struct {
 	sentTLS   int
 	unexp     string
 	proceeded bool
-	in, tin   []hx.Item
+	in, tin   []nx.Item
 }
 
 var (
@@ -138,40 +154,41 @@ var (
 	reClose    = regexp.MustCompile(`^</stream:stream>`)
 )
 
-func (p *peer) render(it hx.Item) []byte {
-	return hx.RenderItemFor(it, false, true, false, true, p.domain)
+func (p *peer) render(it nx.Item) []byte {
+	return nx.RenderItem(it, p.c.Bits&nx.S2S != 0, p.domain)
 }
 
 // sendNext writes the next item of the given script; a good header is
 // followed at once by the item after it. With nothing left to send the output
 // is closed (the client reads EOF) while the client's writes are still taken.
-func (p *peer) sendNext(script *[]hx.Item, w func([]byte) error, eof func(), count *int) (last *hx.Item) {
+func (p *peer) sendNext(script *[]nx.Item, w func([]byte) error, eof func(), count *int) {
 	for {
 		if len(*script) == 0 {
 			eof()
-			return last
+			return
 		}
 		it := (*script)[0]
 		*script = (*script)[1:]
 		if count != nil {
+			p.mu.Lock()
 			*count++
+			p.mu.Unlock()
 		}
 		if err := w(p.render(it)); err != nil {
-			return &it
+			return
 		}
-		last = &it
 		if it.Kind == "header" && !it.Bad {
 			continue
 		}
 		if len(*script) == 0 {
 			eof()
 		}
-		return last
+		return
 	}
 }
 
-func isProceed(it *hx.Item) bool {
-	return it != nil && it.Kind == "elem" && !it.Sp && it.Space == hx.NSStartTLS && it.Local == "proceed"
+func isProceed(it *nx.Item) bool {
+	return it != nil && it.Kind == "elem" && !it.Sp && it.Space == nx.NSStartTLS && it.Local == "proceed"
 }
 
 func (p *peer) run() {
@@ -209,30 +226,46 @@ func (p *peer) run() {
 				// the answer; an exhausted script is noticed at the next read, not now
 				it := p.in[0]
 				p.in = p.in[1:]
-				wr(p.render(it))
-				last := &it
-				if isProceed(last) {
-					p.mu.Lock()
-					p.proceeded = true
-					p.mu.Unlock()
-					if len(pending) > 0 {
-						p.unexp = "bytes after the STARTTLS request: " + string(pending)
+				if !isProceed(&it) {
+					wr(p.render(it))
+					if len(p.in) == 0 {
+						p.conn.CloseWrite()
 					}
-					if p.c.HsMode == "plaintext" {
-						// clear text in a later segment, where the TLS client expects a record
-						// (queued once the client has taken <proceed/>, before any handshake byte)
-						p.conn.WaitDrained()
-						p.conn.Write([]byte("<stream:features xmlns:stream='http://etherx.jabber.org/streams'/>"))
-					}
-					p.runTLS()
-					return
+					continue
 				}
-				continue
+				// what is left of the clear-text script travels behind <proceed/>
+				var rest []byte
+				for _, r := range p.in {
+					rest = append(rest, p.render(r)...)
+				}
+				p.in = nil
+				p.mu.Lock()
+				p.proceeded = true
+				if len(pending) > 0 {
+					p.unexp = "bytes after the STARTTLS request: " + string(pending)
+				}
+				p.mu.Unlock()
+				if p.c.HsMode == "plaintext" {
+					// clear text in a later segment, where the TLS client expects a record
+					// (queued once the client has taken <proceed/>, before any handshake byte)
+					wr(p.render(it))
+					p.conn.WaitDrained()
+					if len(rest) == 0 {
+						rest = []byte("<stream:features xmlns:stream='http://etherx.jabber.org/streams'/>")
+					}
+					wr(rest)
+				} else {
+					wr(append(p.render(it), rest...))
+				}
+				p.runTLS()
+				return
 			}
 			if isPrefixOfAny(pending, "<?xml", "<stream:stream", "<starttls") {
 				break // wait for the rest
 			}
+			p.mu.Lock()
 			p.unexp = "unexpected clear text: " + string(pending)
+			p.mu.Unlock()
 			p.conn.Close()
 			return
 		}
@@ -244,7 +277,7 @@ func (p *peer) run() {
 
 // recConn records what the TLS server reads from the wire.
 type recConn struct {
-	*hx.DuplexEnd
+	*nx.DuplexEnd
 	p *peer
 }
 
@@ -330,7 +363,11 @@ func (p *peer) runTLS() {
 				if mm := reID.FindSubmatch(m); mm != nil {
 					id = string(mm[1])
 				}
-				if wr([]byte(`<iq xmlns='jabber:client' type='result' id='`+id+`'><bind xmlns='urn:ietf:params:xml:ns:xmpp-bind'><jid>me@`+p.domain+`/res</jid></bind></iq>`)) != nil {
+				xmlns := "jabber:client"
+				if p.c.Bits&nx.S2S != 0 {
+					xmlns = "jabber:server"
+				}
+				if wr([]byte(`<iq xmlns='`+xmlns+`' type='result' id='`+id+`'><bind xmlns='urn:ietf:params:xml:ns:xmpp-bind'><jid>me@`+p.domain+`/res</jid></bind></iq>`)) != nil {
 					return
 				}
 				continue
@@ -353,18 +390,22 @@ func (p *peer) runTLS() {
 
 // ---------------------------------------------------------------- running one session
 
-const extraSpace = "urn:x:sm"
+const (
+	extraSpace = "urn:x:sm"
+	evilSpace  = "urn:x:pipelined" // advertised only by clear text pipelined behind <proceed/>
+)
 
 // buildFeatures returns the configured features (real ones wrapped for
 // logging) and their model descriptions. stls, when non-nil, is a StartTLS
 // feature value shared with other sessions.
-func buildFeatures(c *c2Case, log *hx.NegLog, stls *xmpp.StreamFeature, outs *[]hx.Outcome) ([]xmpp.StreamFeature, []hx.FeatSpec) {
+func buildFeatures(c *c2Case, log *nx.Log, stls *xmpp.StreamFeature) ([]xmpp.StreamFeature, []nx.FeatSpec) {
 	var fs []xmpp.StreamFeature
-	var specs []hx.FeatSpec
-	spec := func(f xmpp.StreamFeature, kind string) hx.FeatSpec {
-		return hx.FeatSpec{Space: f.Name.Space, Local: f.Name.Local, Nec: uint8(f.Necessary), Proh: uint8(f.Prohibited),
-			Neg: f.Negotiate != nil, Kind: kind, LReq: true}
+	var specs []nx.FeatSpec
+	spec := func(f xmpp.StreamFeature, kind string) nx.FeatSpec {
+		return nx.FeatSpec{Space: f.Name.Space, Local: f.Name.Local, Nec: uint8(f.Necessary), Proh: uint8(f.Prohibited),
+			Neg: f.Negotiate != nil, Kind: kind}
 	}
+	xcalls := 0
 	for _, ch := range c.Feat {
 		switch ch {
 		case 't':
@@ -375,23 +416,30 @@ func buildFeatures(c *c2Case, log *hx.NegLog, stls *xmpp.StreamFeature, outs *[]
 				f = xmpp.StartTLS(clientTLSConfig(c))
 			}
 			specs = append(specs, spec(f, "starttls"))
-			fs = append(fs, hx.LoggedFeature(f, log))
+			fs = append(fs, nx.LoggedFeature(f, log))
 		case 's':
 			f := xmpp.SASL("", "secret", sasl.Plain)
 			specs = append(specs, spec(f, ""))
-			fs = append(fs, hx.LoggedFeature(f, log))
+			fs = append(fs, nx.LoggedFeature(f, log))
 		case 'b':
 			f := xmpp.BindResource()
 			specs = append(specs, spec(f, ""))
-			fs = append(fs, hx.LoggedFeature(f, log))
-		case 'x', 'X':
-			sp := hx.FeatSpec{Space: extraSpace, Local: "sm", Nec: hx.NegSecure, Neg: true, LReq: ch == 'X'}
+			fs = append(fs, nx.LoggedFeature(f, log))
+		case 'x':
+			sp := nx.FeatSpec{Space: extraSpace, Local: "sm", Nec: nx.Secure, Neg: true}
 			specs = append(specs, sp)
-			fs = append(fs, hx.AbstractFeature(sp, log, func(hx.FeatSpec, uint8) hx.Outcome {
-				o := hx.Outcome{}
-				*outs = append(*outs, o)
+			fs = append(fs, nx.AbstractFeature(sp, log, func(nx.FeatSpec, uint8) nx.Outcome {
+				var o nx.Outcome
+				if xcalls < len(c.XOuts) {
+					o = c.XOuts[xcalls]
+				}
+				xcalls++
 				return o
 			}))
+		case 'e':
+			sp := nx.FeatSpec{Space: evilSpace, Local: "p", Nec: nx.Secure, Neg: true}
+			specs = append(specs, sp)
+			fs = append(fs, nx.AbstractFeature(sp, log, func(nx.FeatSpec, uint8) nx.Outcome { return nx.Outcome{Mask: nx.Ready} }))
 		}
 	}
 	return fs, specs
@@ -410,15 +458,14 @@ func clientTLSConfig(c *c2Case) *tls.Config {
 	return cfg
 }
 
-func execute(c *c2Case, domain string, stls *xmpp.StreamFeature) (observed, []hx.FeatSpec) {
-	a, b := hx.NewDuplex()
-	p := &peer{conn: b, c: c, domain: domain, in: append([]hx.Item(nil), c.In...), tin: append([]hx.Item(nil), c.TLSIn...)}
+func execute(c *c2Case, domain string, stls *xmpp.StreamFeature) (observed, []nx.FeatSpec) {
+	a, b := nx.NewDuplex()
+	p := &peer{conn: b, c: c, domain: domain, in: append([]nx.Item(nil), c.In...), tin: append([]nx.Item(nil), c.TLSIn...)}
 	pdone := make(chan struct{})
 	go func() { defer close(pdone); p.run() }()
 
-	log := &hx.NegLog{}
-	var outs []hx.Outcome
-	feats, specs := buildFeatures(c, log, stls, &outs)
+	log := &nx.Log{}
+	feats, specs := buildFeatures(c, log, stls)
 	var teeIn, teeOut bytes.Buffer
 	neg := xmpp.NewNegotiator(func(*xmpp.Session, *xmpp.StreamConfig) xmpp.StreamConfig {
 		sc := xmpp.StreamConfig{Features: feats}
@@ -433,7 +480,7 @@ func execute(c *c2Case, domain string, stls *xmpp.StreamFeature) (observed, []hx
 	var sess *xmpp.Session
 	var err error
 	var pmsg string
-	done := hx.WithTimeout(4*time.Second, func() {
+	done := hx.WithTimeout(watchdog, func() {
 		pmsg = hx.Catch(func() {
 			sess, err = xmpp.NewSession(context.Background(), jid.MustParse(domain), jid.MustParse("me@"+domain), a, xmpp.SessionState(c.Bits), neg)
 		})
@@ -456,39 +503,39 @@ func execute(c *c2Case, domain string, stls *xmpp.StreamFeature) (observed, []hx
 	a.Close()
 	select {
 	case <-pdone:
-	case <-time.After(2 * time.Second):
+	case <-time.After(watchdog):
 	}
 	b.Close()
 	p.mu.Lock()
 	defer p.mu.Unlock()
-	clear := p.clear
-	if i := bytes.Index(clear, []byte{0x16, 0x03}); i >= 0 {
-		clear = clear[:i] // a TLS handshake record starts here
-	}
-	o.Clear = string(clear)
-	o.Wire = hx.ParseWire(clear)
-	if o.Wire == nil {
-		o.Wire = []hx.REvent{}
-	}
+	o.Clear = string(p.clear)
+	o.Wire = nx.ParseWire(p.clear)
 	o.SNI = append([]string{}, p.sni...)
 	o.HS = append([]bool{}, p.hs...)
 	o.TLSHdr, o.SentTLS, o.Unexp, o.Proceed = p.tlsHdr, p.sentTLS, p.unexp, p.proceeded
 	if len(p.post) > 0 && p.post[0] != 0x16 {
 		o.Unexp = "clear text after <proceed/>: " + string(p.post)
 	}
-	o.CB = []hx.REvent{}
-	for _, e := range log.Finish() {
-		if e.K == "parse" || e.K == "neg" {
-			o.CB = append(o.CB, e)
-		}
-		if e.K == "neg" {
-			o.Choices = append(o.Choices, e.Space)
+	o.CB = log.Events()
+	// conn.go: a teeConn reports the TLS state only of a *tls.Conn it wraps
+	// directly; once a scripted feature has returned a wrapper around the
+	// connection the tee'd session reports no TLS state at all (outside C02:
+	// noted in design/C02.md).  The peer's view of the handshake stands in.
+	if c.Tee != 0 && !o.TLSUp && len(p.hs) > 0 && p.hs[len(p.hs)-1] {
+		for _, e := range o.CB {
+			if e.K == "neg" && e.Space == extraSpace && e.O.Restart {
+				o.TLSUp = true
+			}
 		}
 	}
-	// outcomes of all abstract (non-STARTTLS) features in call order
-	o.Outs = nil
+	// the observed picks (every Negotiate call) and the outcomes of all features
+	// other than STARTTLS, in call order
 	for _, e := range o.CB {
-		if e.K == "neg" && e.Space != hx.NSStartTLS {
+		if e.K != "neg" {
+			continue
+		}
+		o.Choices = append(o.Choices, e.Space)
+		if e.Space != nx.NSStartTLS {
 			o.Outs = append(o.Outs, *e.O)
 		}
 	}
@@ -497,18 +544,30 @@ func execute(c *c2Case, domain string, stls *xmpp.StreamFeature) (observed, []hx
 
 // ---------------------------------------------------------------- oracle
 
-func allowedClear(s string) (rest string) {
+// clearShape classifies what was sent in clear text: the number of stream
+// headers and STARTTLS requests, whether they came in that order, and whatever
+// is neither.
+func clearShape(s string) (headers, requests int, ordered bool, rest string) {
+	ordered = true
 	s = strings.TrimLeft(s, " \r\n\t")
 	for {
 		switch {
 		case reDecl.MatchString(s):
 			s = s[len(reDecl.FindString(s)):]
 		case reHeader.MatchString(s):
+			if requests > 0 {
+				ordered = false
+			}
+			headers++
 			s = s[len(reHeader.FindString(s)):]
-		case reStartTLS.MatchString(s) && strings.Contains(reStartTLS.FindString(s), hx.NSStartTLS):
+		case reStartTLS.MatchString(s) && strings.Contains(reStartTLS.FindString(s), nx.NSStartTLS):
+			if headers == 0 {
+				ordered = false
+			}
+			requests++
 			s = s[len(reStartTLS.FindString(s)):]
 		default:
-			return s
+			return headers, requests, ordered, s
 		}
 		s = strings.TrimLeft(s, " \r\n\t")
 	}
@@ -519,20 +578,24 @@ func oracle(c *c2Case, domain string, o *observed) [][2]string {
 	var fails [][2]string
 	fail := func(k, w string) { fails = append(fails, [2]string{k, w}) }
 	sentStartTLS := strings.Contains(o.Clear, "<starttls")
-	// 1. nothing but the stream header and the STARTTLS request in clear text
-	if rest := allowedClear(o.Clear); rest != "" {
+	// 1. nothing but one stream header and one STARTTLS request in clear text
+	headers, requests, ordered, rest := clearShape(o.Clear)
+	switch {
+	case rest != "":
 		fail("clear-wire/other-data", "sent in clear text: "+rest)
+	case headers > 1 || requests > 1 || !ordered:
+		fail("clear-wire/repeated", fmt.Sprintf("%d stream headers and %d STARTTLS requests in clear text", headers, requests))
 	}
 	if o.Unexp != "" && !strings.HasPrefix(o.Unexp, "unexpected clear text") {
 		fail("clear-wire/other-data", o.Unexp)
 	}
 	// 2. established only over TLS
 	if o.Class == "ok" {
-		tlsUp := o.TLSUp && o.Bits&hx.NegSecure != 0 && len(o.HS) > 0 && o.HS[len(o.HS)-1]
+		tlsUp := o.TLSUp && o.Bits&nx.Secure != 0 && len(o.HS) > 0 && o.HS[len(o.HS)-1]
 		switch {
 		case tlsUp && !(o.TLSHdr && o.SentTLS >= 2):
 			// 4. ... and what made it ready came over the TLS layer
-			fail("cleartext-reinterpreted", "session established although the peer's TLS-layer header and features were not both delivered: clear text received before the handshake was used")
+			fail("cleartext-reinterpreted/ready-without-tls-input", "session established although the peer's TLS-layer header and features were not both delivered: clear text received before the handshake was used")
 		case tlsUp:
 		case sentStartTLS && o.Proceed:
 			fail("ready-in-clear/proceed-without-handshake", "session established right after <proceed/>: no TLS handshake, no stream restart")
@@ -541,12 +604,33 @@ func oracle(c *c2Case, domain string, o *observed) [][2]string {
 		default:
 			fail("ready-in-clear/no-starttls-attempt", "session established in clear text without attempting STARTTLS")
 		}
-		if o.Bits&hx.NegReady == 0 {
+		if o.Bits&nx.Ready == 0 {
 			fail("ready-bit", "established without the Ready bit")
 		}
 	}
 	if o.Class == "panic" || o.Class == "timeout" {
 		fail(o.Class, "negotiation "+o.Class+": "+o.ErrText)
+	}
+	// whatever the outcome: no state bit is gained while the stream is in clear text
+	if !o.Proceed && o.Bits != c.Bits && o.Class != "timeout" && o.Class != "panic" {
+		fail("ready-in-clear/bits-gained", fmt.Sprintf("state went from %d to %d although the peer never said <proceed/>", c.Bits, o.Bits))
+	}
+	// 4. clear text pipelined behind <proceed/> is never parsed: the marker
+	// feature is advertised only there
+	if !advertisesMarker(c.TLSIn) && !advertisesMarker(c.In[:min(len(c.In), 2)]) {
+		for _, e := range o.CB {
+			if e.Space == evilSpace {
+				fail("cleartext-reinterpreted/pipelined-parsed", "a feature advertised only in clear text pipelined behind <proceed/> reached the session ("+e.K+" callback)")
+				break
+			}
+		}
+	}
+	// no feature that needs a secured stream is negotiated before the handshake
+	for _, e := range o.CB {
+		if e.K == "neg" && e.Space != nx.NSStartTLS && e.St&nx.Secure == 0 {
+			fail("ready-in-clear/feature-negotiated-in-clear", "feature "+e.Space+" negotiated while the session was not secure")
+			break
+		}
 	}
 	// 3. server name
 	want := domain
@@ -569,66 +653,102 @@ func oracle(c *c2Case, domain string, o *observed) [][2]string {
 	return fails
 }
 
+func min(a, b int) int {
+	if a < b {
+		return a
+	}
+	return b
+}
+
+func advertisesMarker(its []nx.Item) bool {
+	for _, it := range its {
+		for _, ch := range it.Children {
+			if ch.Space == evilSpace {
+				return true
+			}
+		}
+	}
+	return false
+}
+
 // ---------------------------------------------------------------- generation
 
 func sp(s string) *string { return &s }
 
-func tlsChild(req bool) hx.Child { return hx.Child{Space: hx.NSStartTLS, Local: "starttls", Req: req} }
+func tlsChild(req bool) nx.Child { return nx.Child{Space: nx.NSStartTLS, Local: "starttls", Req: req} }
 
 var (
-	saslChild = hx.Child{Space: hx.NSSASL, Local: "mechanisms", Req: true}
-	bindChild = hx.Child{Space: hx.NSBind, Local: "bind", Req: true}
-	smChild   = hx.Child{Space: extraSpace, Local: "sm"}
-	unkChild  = hx.Child{Space: "urn:x:unknown", Local: "u"}
+	saslChild  = nx.Child{Space: nx.NSSASL, Local: "mechanisms", Req: true}
+	bindChild  = nx.Child{Space: nx.NSBind, Local: "bind", Req: true}
+	smChild    = nx.Child{Space: extraSpace, Local: "sm"}
+	smReqChild = nx.Child{Space: extraSpace, Local: "sm", Req: true}
+	smErrChild = nx.Child{Space: extraSpace, Local: "sm", PErr: true}
+	evilChild  = nx.Child{Space: evilSpace, Local: "p"}
+	unkChild   = nx.Child{Space: "urn:x:unknown", Local: "u"}
 )
 
-func feat(cs ...hx.Child) hx.Item { return hx.Item{Kind: "features", Children: cs} }
+func feat(cs ...nx.Child) nx.Item { return nx.Item{Kind: "features", Children: cs} }
 
-var hdr = hx.Item{Kind: "header"}
-
-const pipelined = "<?xml version='1.0'?><stream:stream xmlns='jabber:client' xmlns:stream='http://etherx.jabber.org/streams' version='1.0' id='evil' from='example.net'><stream:features xmlns:stream='http://etherx.jabber.org/streams'/>"
+var hdr = nx.Item{Kind: "header"}
 
 // the grammar of peer behaviours
-func clearLists() []hx.Item {
-	return []hx.Item{
+func clearLists() []nx.Item {
+	return []nx.Item{
 		feat(tlsChild(true)), feat(tlsChild(false)), feat(tlsChild(true), saslChild), feat(saslChild), feat(saslChild, bindChild),
 		feat(), feat(unkChild), feat(tlsChild(false), unkChild, saslChild, bindChild), feat(smChild),
-		feat(hx.Child{Space: hx.NSStartTLS, Local: "other"}), feat(tlsChild(false), hx.Child{Text: true}),
-		{Kind: "garbage"}, {Kind: "streamerr"}, {Kind: "elem", Space: "urn:x:unknown", Local: "u"}, {Kind: "features", Sp: true, Children: []hx.Child{tlsChild(true)}},
+		feat(nx.Child{Space: nx.NSStartTLS, Local: "other"}), feat(tlsChild(false), nx.Child{Text: true}),
+		{Kind: "garbage"}, {Kind: "streamerr"}, {Kind: "elem", Space: "urn:x:unknown", Local: "u"}, {Kind: "features", Sp: true, Children: []nx.Child{tlsChild(true)}},
+		feat(smReqChild, bindChild), feat(tlsChild(false), smChild), feat(smErrChild, tlsChild(true)), feat(tlsChild(true), tlsChild(false)),
 	}
 }
 
-func replies() []hx.Item {
-	return []hx.Item{
-		{Kind: "elem", Space: hx.NSStartTLS, Local: "proceed"},
-		{Kind: "elem", Space: hx.NSStartTLS, Local: "proceed", Raw: pipelined},
-		{Kind: "elem", Space: hx.NSStartTLS, Local: "failure"},
-		{Kind: "elem", Space: hx.NSStartTLS, Local: "other"},
+func replies() []nx.Item {
+	return []nx.Item{
+		{Kind: "elem", Space: nx.NSStartTLS, Local: "proceed"},
+		{Kind: "elem", Space: nx.NSStartTLS, Local: "proceed"},
+		{Kind: "elem", Space: nx.NSStartTLS, Local: "failure"},
+		{Kind: "elem", Space: nx.NSStartTLS, Local: "other"},
 		{Kind: "elem", Space: "urn:x:unknown", Local: "proceed"},
-		{Kind: "elem", Space: hx.NSStartTLS, Local: "proceed", Sp: true},
-		{Kind: "garbage"}, {Kind: "streamerr"}, feat(), feat(saslChild), {Kind: "iq", Space: hx.NSBind, Local: "bind"}, {Kind: "header"},
+		{Kind: "elem", Space: nx.NSStartTLS, Local: "proceed", Sp: true},
+		{Kind: "garbage"}, {Kind: "streamerr"}, feat(), feat(saslChild), {Kind: "elem", Space: "jabber:client", Local: "iq"}, {Kind: "header"},
 	}
 }
 
-func tlsScripts() [][]hx.Item {
-	return [][]hx.Item{
+// clear text an attacker may pipeline behind <proceed/>
+func pipelines() [][]nx.Item {
+	return [][]nx.Item{
+		{hdr, feat()},
+		{hdr, feat(evilChild)},
+		{hdr, feat(saslChild)},
+		{feat()},
+		{hdr},
+		{{Kind: "garbage"}},
+	}
+}
+
+func tlsScripts() [][]nx.Item {
+	return [][]nx.Item{
 		{hdr, feat()},
 		{hdr, feat(saslChild), hdr, feat(bindChild)},
 		{hdr, feat(saslChild, bindChild), hdr, feat(bindChild)},
 		{hdr, feat(saslChild), hdr, feat()},
 		{hdr, feat(smChild, saslChild), hdr, feat(bindChild, smChild)},
+		{hdr, feat(smChild), hdr, feat(saslChild), hdr, feat(bindChild)},
 		{{Kind: "header", Bad: true}},
 		{hdr, {Kind: "garbage"}},
 		{hdr, feat(tlsChild(true))},
 		{hdr, feat(bindChild)},
 		{hdr, feat(unkChild)},
+		{hdr, feat(smReqChild)},
+		{hdr, feat(smErrChild, saslChild)},
 		{hdr},
 		{},
 	}
 }
 
-var featSets = []string{"tsb", "ts", "t", "stb", "bst", "tsbx", "xtsb", "tsbX", "tx"}
+var featSets = []string{"tsb", "ts", "t", "stb", "bst", "tsbx", "xtsb", "tsbe", "tx", "etsbx"}
 var hsModes = []string{"ok", "ok", "ok", "untrusted", "nilcfg", "abort", "plaintext"}
+var xOutcomes = []nx.Outcome{{}, {}, {Restart: true}, {Err: true}, {Mask: nx.Authn}, {Mask: nx.Ready}, {Mask: nx.Authn, Restart: true}}
 
 func genCase(r *hx.Rand) *c2Case {
 	c := &c2Case{}
@@ -638,7 +758,9 @@ func genCase(r *hx.Rand) *c2Case {
 	if c.HsMode != "nilcfg" {
 		c.TLSName = sp([]string{"example.net", "tls.example.net"}[r.Intn(2)])
 	}
-	c.HsOK = c.HsMode == "ok"
+	if r.Chance(1, 8) {
+		c.Bits = nx.S2S
+	}
 	h := hdr
 	if r.Chance(1, 20) {
 		h.Bad = true
@@ -646,32 +768,38 @@ func genCase(r *hx.Rand) *c2Case {
 	h.Sp = r.Chance(1, 15)
 	cl := clearLists()
 	rp := replies()
-	var list hx.Item
+	var list nx.Item
 	if r.Chance(3, 5) {
 		list = cl[r.Intn(5)] // the usual advertisements
 	} else {
 		list = cl[r.Intn(len(cl))]
 	}
-	var reply hx.Item
+	var reply nx.Item
 	if r.Chance(1, 2) {
 		reply = rp[r.Intn(2)]
 	} else {
 		reply = rp[r.Intn(len(rp))]
 	}
-	c.In = []hx.Item{h, list, reply}
+	c.In = []nx.Item{h, list, reply}
 	switch r.Intn(12) {
 	case 0:
 		c.In = c.In[:2] // no answer to the STARTTLS request
 	case 1:
 		c.In = c.In[:1]
-	case 2:
-		c.In = append(c.In, feat()) // more clear text after the answer
+	case 2, 3, 4:
+		pl := pipelines()
+		c.In = append(c.In, pl[r.Intn(len(pl))]...) // more clear text behind the answer
 	}
 	ts := tlsScripts()
 	if r.Chance(1, 2) {
-		c.TLSIn = ts[r.Intn(5)]
+		c.TLSIn = ts[r.Intn(6)]
 	} else {
 		c.TLSIn = ts[r.Intn(len(ts))]
+	}
+	if strings.Contains(c.Feat, "x") {
+		for i, n := 0, r.Intn(3); i < n; i++ {
+			c.XOuts = append(c.XOuts, xOutcomes[r.Intn(len(xOutcomes))])
+		}
 	}
 	return c
 }
@@ -683,29 +811,31 @@ type runner struct {
 	cf  hx.CaseFile
 }
 
-func coqCase(c *c2Case, specs []hx.FeatSpec, domain string, o *observed) string {
-	nc := c.NegCase
-	nc.Feats = specs
-	nc.Domain = domain
-	var outs, chs, wire, sni, hs []string
+func coqCase(c *c2Case, specs []nx.FeatSpec, domain string, o *observed) string {
+	var outs, chs, wire, cbs, sni, hs []string
 	for _, x := range o.Outs {
-		outs = append(outs, hx.CoqOutcome(x))
+		outs = append(outs, nx.CoqOutcome(x))
 	}
 	for _, x := range o.Choices {
-		chs = append(chs, hx.CoqStr(x))
+		chs = append(chs, nx.CoqStr(x))
 	}
-	for _, e := range o.Wire {
-		wire = append(wire, strings.TrimPrefix(hx.CoqREvent(e), "ROut "))
+	for _, w := range o.Wire {
+		wire = append(wire, nx.CoqWItem(w))
+	}
+	for _, e := range o.CB {
+		cbs = append(cbs, nx.CoqCB(e))
 	}
 	for _, n := range o.SNI {
-		sni = append(sni, hx.CoqStr(n))
+		sni = append(sni, nx.CoqStr(n))
 	}
 	for _, b := range o.HS {
 		hs = append(hs, hx.CoqBool(b))
 	}
-	l := func(xs []string) string { return "[" + strings.Join(xs, "; ") + "]" }
-	return fmt.Sprintf("mkC2 %s %s %s %s %s %s %s %s %s %s %s %s", hx.CoqConfig(nc), hx.CoqN(nc.Bits), hx.CoqItems(nc.In), hx.CoqItems(nc.TLSIn),
-		l(outs), l(chs), hx.CoqBool(o.Class == "ok"), hx.CoqN(o.Bits), l(wire), hx.CoqTrace(o.CB), l(sni), l(hs))
+	l := nx.CoqList
+	return fmt.Sprintf("mkC2 %s %s %s %s %s %s %s %s %s %s %s %s %s %s %s",
+		hx.CoqBool(c.Tee != 0), nx.CoqConfig(specs, c.hsOK(), domain), nx.CoqOptStr(c.TLSName), nx.CoqN(c.Bits),
+		nx.CoqItems(c.In), nx.CoqItems(c.TLSIn), l(outs), l(chs),
+		hx.CoqBool(o.Class == "ok"), nx.CoqN(o.Bits), l(wire), l(cbs), l(sni), l(hs), hx.CoqNat(o.SentTLS))
 }
 
 // one script, the four tee modes, optional further sessions with the same feature value
@@ -757,7 +887,7 @@ func diff(a, b *observed) string {
 	return "observations differ: " + string(ja) + " vs " + string(jb)
 }
 
-func (x *runner) record(c *c2Case, specs []hx.FeatSpec, domain string, o *observed, si int) {
+func (x *runner) record(c *c2Case, specs []nx.FeatSpec, domain string, o *observed, si int) {
 	b, _ := json.Marshal(struct {
 		C *c2Case
 		D string
@@ -776,6 +906,9 @@ func (x *runner) record(c *c2Case, specs []hx.FeatSpec, domain string, o *observ
 	classes := []string{"stage:" + stage, "hs:" + c.HsMode, fmt.Sprintf("tee:%d", c.Tee), "feats:" + c.Feat}
 	if si > 0 {
 		classes = append(classes, "reused-feature-value")
+	}
+	if len(c.In) > 3 && isProceed(&c.In[2]) {
+		classes = append(classes, "pipelined-behind-proceed")
 	}
 	x.res.Count(string(b), strings.Contains(o.Clear, "<starttls") || o.Class == "ok", classes...)
 	for _, f := range oracle(c, domain, o) {
@@ -814,9 +947,9 @@ func main() {
 			cc := c
 			x.run(&cc)
 		}
-		n := 260
+		n := 300
 		if o.Thorough() {
-			n = 0
+			n = 1500
 			exhaustive(x)
 		}
 		if o.Search {
@@ -830,12 +963,13 @@ func main() {
 			x.run(c)
 		}
 	}
-	res.Rule = "cases: corpus (witnesses of the three defects seen on the pinned tree), then peer scripts drawn from a grammar of behaviours " +
-		"(header good/bad; first list with STARTTLS required/optional/absent/alone/among others/empty/malformed; answer proceed, proceed with " +
-		"pipelined clear text, failure, other element, other name space, garbage, stream error, nothing; TLS handshake completed / certificate " +
-		"not trusted / default config / refused by the server / clear text instead of a record; TLS-layer script with SASL, bind, an extra feature, " +
-		"empty or malformed lists), thorough tier: the whole product of the grammar; every script x tee off/in/out/both x feature sets; one StartTLS " +
-		"value reused for 2-3 sessions of different domains; distinct = hash of (case, domain); non-trivial = a STARTTLS request was sent or the session was established"
+	res.Rule = "cases: corpus (witnesses of the defects seen on the pinned tree), then peer scripts drawn from a grammar of behaviours " +
+		"(header good/bad; first list with STARTTLS required/optional/absent/alone/among others/twice/empty/malformed; answer proceed, proceed with " +
+		"clear text pipelined behind it (header, features, a marker feature, garbage), failure, other element, other name space, garbage, stream error, nothing; " +
+		"TLS handshake completed / certificate not trusted / default config / refused by the server / clear text instead of a record; TLS-layer script with " +
+		"SASL, bind, a scripted extra feature (voluntary/required, restarting, failing, granting bits), empty or malformed lists), thorough tier: the whole " +
+		"product of the grammar; every script x tee off/in/out/both x feature sets x c2s/s2s; one StartTLS value reused for 2-3 sessions of different domains; " +
+		"distinct = hash of (case, domain); non-trivial = a STARTTLS request was sent or the session was established"
 	res.CaseFiles = append(res.CaseFiles, x.cf.Write(o.Out, 500)...)
 	res.Extra["model_cases"] = x.cf.Len()
 	res.Write(o.Out)
@@ -843,10 +977,13 @@ func main() {
 
 // exhaustive: the product of the behaviour grammar (thorough tier).
 func exhaustive(x *runner) {
-	cl, rp, ts := clearLists(), replies(), tlsScripts()
+	cl, rp, ts, pl := clearLists(), replies(), tlsScripts(), pipelines()
 	i := 0
 	for li, list := range cl {
 		for ri, reply := range rp {
+			if ri == 1 {
+				continue // same as 0
+			}
 			for _, mode := range []string{"ok", "nilcfg", "abort", "plaintext", "untrusted"} {
 				for ti, t := range ts {
 					// beyond a completed handshake only the "ok" mode gets anywhere; keep one TLS script for the others
@@ -854,7 +991,7 @@ func exhaustive(x *runner) {
 						continue
 					}
 					// answers that are not <proceed/> never reach the TLS script either
-					if ri > 1 && ri != 5 && ti > 1 {
+					if ri > 1 && ti > 1 {
 						continue
 					}
 					c := &c2Case{HsMode: mode, Feat: featSets[i%len(featSets)]}
@@ -865,8 +1002,13 @@ func exhaustive(x *runner) {
 					} else if (li+ri)%3 == 0 {
 						c.Reuse = []string{"example.org"}
 					}
-					c.HsOK = mode == "ok"
-					c.In = []hx.Item{hdr, list, reply}
+					c.In = []nx.Item{hdr, list, reply}
+					if i%3 == 0 {
+						c.In = append(c.In, pl[(i/3)%len(pl)]...)
+					}
+					if strings.Contains(c.Feat, "x") {
+						c.XOuts = []nx.Outcome{xOutcomes[i%len(xOutcomes)], xOutcomes[(i/7)%len(xOutcomes)]}
+					}
 					c.TLSIn = t
 					x.run(c)
 				}
@@ -877,22 +1019,30 @@ func exhaustive(x *runner) {
 
 // corpus: witnesses of the defects seen on the pinned tree; always run first.
 func corpus() []c2Case {
-	mk := func(note, feat, mode string, name *string, in, tin []hx.Item, reuse ...string) c2Case {
+	mk := func(note, feat, mode string, name *string, in, tin []nx.Item, reuse ...string) c2Case {
 		c := c2Case{Note: note, Feat: feat, HsMode: mode, Reuse: reuse}
-		c.Domain, c.TLSName, c.In, c.TLSIn, c.HsOK = "example.net", name, in, tin, mode == "ok"
+		c.Domain, c.TLSName, c.In, c.TLSIn = "example.net", name, in, tin
 		return c
 	}
-	proceed := hx.Item{Kind: "elem", Space: hx.NSStartTLS, Local: "proceed"}
-	failure := hx.Item{Kind: "elem", Space: hx.NSStartTLS, Local: "failure"}
-	full := []hx.Item{hdr, feat(saslChild), hdr, feat(bindChild)}
+	proceed := nx.Item{Kind: "elem", Space: nx.NSStartTLS, Local: "proceed"}
+	failure := nx.Item{Kind: "elem", Space: nx.NSStartTLS, Local: "failure"}
+	full := []nx.Item{hdr, feat(saslChild), hdr, feat(bindChild)}
+	net := sp("example.net")
+	s2s := mk("happy path, server to server", "ts", "ok", net, []nx.Item{hdr, feat(tlsChild(true)), proceed}, []nx.Item{hdr, feat()})
+	s2s.Bits = nx.S2S
 	return []c2Case{
-		mk("optional <starttls/> answered by <failure/>", "tsb", "ok", sp("example.net"), []hx.Item{hdr, feat(tlsChild(false)), failure}, full),
-		mk("optional <starttls/> among others answered by <failure/>", "tsbx", "ok", sp("example.net"), []hx.Item{hdr, feat(tlsChild(false), saslChild), failure}, full),
-		mk("empty first list (tee must not matter)", "tsb", "ok", sp("example.net"), []hx.Item{hdr, feat(), proceed}, full),
-		mk("STARTTLS not advertised", "tsb", "ok", sp("example.net"), []hx.Item{hdr, feat(saslChild), proceed}, full),
-		mk("empty first list, nobody answers", "t", "ok", sp("example.net"), []hx.Item{hdr, feat()}, nil),
-		mk("default config reused for other domains", "tsb", "nilcfg", nil, []hx.Item{hdr, feat(tlsChild(true)), proceed}, full, "example.org", "third.example"),
-		mk("clear text pipelined behind <proceed/>", "tsb", "ok", sp("example.net"), []hx.Item{hdr, feat(tlsChild(true)), {Kind: "elem", Space: hx.NSStartTLS, Local: "proceed", Raw: pipelined}}, full),
-		mk("happy path", "tsb", "ok", sp("tls.example.net"), []hx.Item{hdr, feat(tlsChild(true)), proceed}, full),
+		mk("optional <starttls/> answered by <failure/>", "tsb", "ok", net, []nx.Item{hdr, feat(tlsChild(false)), failure}, full),
+		mk("optional <starttls/> among others answered by <failure/>", "tsbx", "ok", net, []nx.Item{hdr, feat(tlsChild(false), saslChild), failure}, full),
+		mk("optional <starttls/> alone answered by <proceed/> (no required feature in the list)", "tsb", "ok", net, []nx.Item{hdr, feat(tlsChild(false)), proceed}, full),
+		mk("empty first list (tee must not matter)", "tsb", "ok", net, []nx.Item{hdr, feat(), proceed}, full),
+		mk("STARTTLS not advertised", "tsb", "ok", net, []nx.Item{hdr, feat(saslChild), proceed}, full),
+		mk("empty first list, nobody answers", "t", "ok", net, []nx.Item{hdr, feat()}, nil),
+		mk("default config reused for other domains", "tsb", "nilcfg", nil, []nx.Item{hdr, feat(tlsChild(true)), proceed}, full, "example.org", "third.example"),
+		mk("explicit config reused for other domains", "tsb", "ok", sp("tls.example.net"), []nx.Item{hdr, feat(tlsChild(true)), proceed}, full, "example.org"),
+		mk("header and empty list pipelined behind <proceed/>", "tsb", "ok", net, []nx.Item{hdr, feat(tlsChild(true)), proceed, hdr, feat()}, full),
+		mk("marker feature pipelined behind <proceed/>", "tsbe", "ok", net, []nx.Item{hdr, feat(tlsChild(true)), proceed, hdr, feat(evilChild)}, full),
+		mk("clear text instead of a TLS record", "tsb", "plaintext", net, []nx.Item{hdr, feat(tlsChild(true)), proceed, hdr, feat()}, full),
+		mk("happy path", "tsb", "ok", sp("tls.example.net"), []nx.Item{hdr, feat(tlsChild(true)), proceed}, full),
+		s2s,
 	}
 }
